@@ -49,7 +49,7 @@ MUTANTS = [
     ("start_chdir_after_exec_order", "process.posix.c", "    if (options.working_directory != NULL) {\n      r = chdir(options.working_directory);", "    if (options.working_directory == NULL) {\n      r = chdir(\".\");", "process_start_child", "C03/exec.working_directory"),
     ("start_env_not_installed", "process.posix.c", "    environ = env;\n", "", "process_start_child", "C03/exec.environment_is_parent_then_extra"),
     ("start_env_ignores_behavior", "process.posix.c", "options.env.behavior == REPROC_ENV_EMPTY ? NULL", "options.env.behavior == REPROC_ENV_EXTEND ? NULL", "process_start_child", "C03/exec.environment_is_parent_then_extra"),
-    ("start_program_not_prefixed", "process.posix.c", "options.working_directory && path_is_relative(argv[0])", "options.working_directory && !path_is_relative(argv[0])", "process_start_child", "C03/exec.program_is_argv0_or_cwd_prefixed"),
+    ("start_program_not_prefixed", "process.posix.c", "options.working_directory && path_is_relative(argv[0])", "options.working_directory && !path_is_relative(argv[0])", "process_start_child", "C03+C04/exec.program_is_argv0_or_cwd_prefixed"),
     ("start_pid_not_stored", "process.posix.c", "  *process = child;\n  r = 0;", "  r = 0;", "process_start_parent", "C04+C06/process_start.success_is_live_child_that_executed"),
     ("start_child_failure_not_reaped", "process.posix.c", "    r = waitpid(child, NULL, 0);\n    r = r < 0 ? -errno : -child_errno;\n    goto finish;", "    r = -child_errno;\n    goto finish;", "process_start_parent", "C04+C05+C06/process_start.failure_leaves_no_child_and_no_pid"),
     ("setup_input_blocking", "reproc.c", "  r = pipe_nonblocking(*pipe, true);\n  if (r < 0) {\n    return r;\n  }\n", "", "setup_input", "C17/os.write.input_nonblocking"),
